@@ -33,7 +33,7 @@ def mc(name, clients=("c1", "c2"), maxops=2, ops=("send", "call", "ping", "stop"
 
 
 def gen(name, main, clients=("main", "c1", "c2"), maxops=2, ops=("send", "call", "stop"), scripts="ScriptsPlain", horizon=0, idle=False,
-        faults=(), maxfaults=0, limit_quick=2500, limit_thorough=20000):
+        faults=(), maxfaults=0, limit_quick=900, limit_thorough=15000):
     m = mc(name, clients=clients, maxops=maxops, ops=ops, scripts=scripts, horizon=horizon, idle=idle, faults=faults, maxfaults=maxfaults)
     m["MainProg"] = "<- " + main
     m["limit"] = {"quick": limit_quick, "thorough": limit_thorough}
